@@ -67,6 +67,13 @@ fn big_of_b<B: PrimeField>(b: &BigUint) -> B {
 }
 
 pub struct BlsTw;
+impl BlsTw {
+    pub fn d_of(n: &[BigUint]) -> Fp12 {
+        let q = |o: usize| Fp2::new(big_of_b(&n[o]), big_of_b(&n[o + 1]));
+        let s = |o: usize| Fp6::new(q(o), q(o + 2), q(o + 4));
+        Fp12::new(s(0), s(6))
+    }
+}
 impl Tw for BlsTw {
     type B = Fp;
     type Q = Fp2;
@@ -133,7 +140,7 @@ impl Tw for BlsTw {
 }
 
 /// the hexadecimal numbers of a derived Debug rendering, in order
-fn hex_numbers(s: &str) -> Vec<BigUint> {
+pub fn hex_numbers(s: &str) -> Vec<BigUint> {
     let mut out = vec![];
     let b = s.as_bytes();
     let mut i = 0;
@@ -154,6 +161,10 @@ fn hex_numbers(s: &str) -> Vec<BigUint> {
 
 pub struct BnTw;
 impl BnTw {
+    pub fn d_of(n: &[BigUint]) -> Fq12 {
+        let s = |o: usize| Fq6::new(Self::q_of(&n[o..o + 2]), Self::q_of(&n[o + 2..o + 4]), Self::q_of(&n[o + 4..o + 6]));
+        Fq12::new(s(0), s(6))
+    }
     fn q_of(n: &[BigUint]) -> Fq2 {
         Fq2::new(big_of_b(&n[0]), big_of_b(&n[1]))
     }
@@ -264,7 +275,7 @@ fn s_json<T: Tw>(x: &T::S) -> J {
     let p = T::s_parts(x);
     json!([q_json::<T>(&p[0]), q_json::<T>(&p[1]), q_json::<T>(&p[2])])
 }
-fn d_json<T: Tw>(x: &T::D) -> J {
+pub fn d_json<T: Tw>(x: &T::D) -> J {
     let p = T::d_parts(x);
     json!([s_json::<T>(&p[0]), s_json::<T>(&p[1])])
 }
